@@ -161,7 +161,30 @@ pub open spec fn selected(items: Seq<ToplevelItem>, f: Seq<char>) -> Seq<Topleve
 }
 """
 
+_MONEY = ("method pence_part(this: Int): String {\n  let p = this % 100\n  if p < 10 { \"0\" ^ string_repr(p) } else { string_repr(p) }\n}\n"
+          "method as_pounds(this: Int): String {\n  string_repr(this / 100) ^ \".\" ^ this.pence_part()\n}\n")
+ISOLATION_PROJECTS = [
+    {"what": "a test file that uses methods defined in another file of the same run, which has tests of its own",
+     "files": {"cart_test.gdn": "fun basket_total(prices: List<Int>): Int {\n  let total = 0\n  for price in prices { total += price }\n  total\n}\ntest basket_sums_prices { assert(basket_total([250, 199, 1]) == 450) }\ntest basket_shown_in_pounds { assert(basket_total([250, 200]).as_pounds() == \"4.50\") }\n",
+               "money.gdn": _MONEY + "test formats_whole_pounds { assert(300.as_pounds() == \"3.00\") }\ntest formats_small_pence { assert(205.as_pounds() == \"2.05\") }\n"},
+     "args": ["cart_test.gdn", "money.gdn"]},
+    {"what": "a test file that uses a method and a type defined in a file without tests",
+     "files": {"shapes_test.gdn": "test area_of_square { assert(Sq{ side: 3 }.area() == 9) }\ntest wrong_area { assert(Sq{ side: 2 }.area() == 5) }\ntest perimeter { assert(Sq{ side: 2 }.perimeter() == 8) }\n",
+               "shapes.gdn": "struct Sq { side: Int }\nmethod area(this: Sq): Int { this.side * this.side }\nmethod perimeter(this: Sq): Int { this.side * 4 }\n"},
+     "args": ["shapes_test.gdn", "shapes.gdn"]},
+    {"what": "passing, failing and erroring tests that share helper functions, a failure deep in a call, a global-looking helper redefined per file",
+     "files": {"one_test.gdn": "fun helper(n: Int): Int { n + 1 }\nfun deep(n: Int): Int { if n == 0 { assert(False)  0 } else { deep(n - 1) } }\ntest first_passes { assert(helper(1) == 2) }\ntest second_fails_deep { assert(deep(3) == 0) }\ntest third_passes { assert(helper(2) == 3) }\ntest fourth_errors { let xs: List<Int> = []\n  assert(xs.get(0) == Some(no_such_fun())) }\ntest fifth_passes { assert(True) }\n",
+               "two_test.gdn": "fun helper2(n: Int): Int { n + 2 }\ntest other_passes { assert(helper2(1) == 3) }\ntest other_fails { assert(helper2(1) == 4) }\n"},
+     "args": ["one_test.gdn", "two_test.gdn"]},
+]
+BOUNDED = [
+    {"name": "test_isolation", "kind": "test-isolation", "props": ["C26"], "input": ISOLATION_PROJECTS, "n_inputs": len(ISOLATION_PROJECTS),
+     "bound": "%d listed projects of two test files (methods and types used across files, files without tests, failing / erroring / deeply failing tests): every test has the same verdict in the full run, with the files in reverse order and alone via -n; every run's exit status is non-zero exactly when a test failed; the summary counts every test" % len(ISOLATION_PROJECTS),
+     "expect": {}},
+]
+
 WITNESSES = [
+    {"match": r"testrun\.", "kind": "test-isolation", "props": ["C26"], "input": ISOLATION_PROJECTS, "expect": {}, "note": "verdicts alone and together"},
     {"match": r"testrun\.", "kind": "test", "props": ["C26"], "filename": "t.gdn",
      "input": "test passes { assert(1 == 1) }\n\ntest fails { assert(1 == 2) }\n\ntest passes_too { let x = 1 assert(x == 1) }\n",
      "expect": {"py": "(rc == 0 and 'exit status 0 although a test failed') or ('2 passed and 1 failed' not in out and 'summary does not say 2 passed and 1 failed: ' + out[-200:]) or ''"},
